@@ -699,6 +699,159 @@ def _answers_presence(f2: FA, r) -> bool:
     return yes(r.value)
 
 
+def _weak_lookups(cm, e):
+    """Keyed lookups in the weak-reference table inside expression `e`: [(lookup node, key expression)] for
+    `self.refs[k]`, `self.refs.get(k ...)` / pop / setdefault / __getitem__ / __contains__ and `k in self.refs`."""
+    out = []
+    if not cm.refs:
+        return out
+    for x in ast.walk(e):
+        if isinstance(x, ast.Subscript) and isinstance(x.ctx, ast.Load) and self_attr(x.value, cm.refs):
+            out.append((x, x.slice))
+        elif isinstance(x, ast.Call) and A.call_attr(x) in ("get", "pop", "setdefault", "__getitem__", "__contains__") \
+                and self_attr(A.call_recv(x), cm.refs) and x.args:
+            out.append((x, x.args[0]))
+        elif isinstance(x, ast.Compare) and len(x.ops) == 1 and isinstance(x.ops[0], (ast.In, ast.NotIn)) and self_attr(x.comparators[0], cm.refs):
+            out.append((x, x.left))
+    return out
+
+
+def _not_resident_edges(fa: FA, cm, kx):
+    """An `edge_ok` that refuses every edge whose taking establishes that key `kx` (name-independent text) has no
+    entry in the resident map: a branch edge implying `kx not in self.map` / `self.map.get(kx) is None` / an empty map
+    (any polarity, nesting, temporaries -- see branch_filter), and the exception edge from a statement that
+    subscripts `self.map[kx]` into a handler catching KeyError."""
+    m = "self." + cm.map
+    present = {"%s in %s" % (kx, m), "%s in %s.keys()" % (kx, m), "%s.__contains__(%s)" % (m, kx), "%s.get(%s)" % (m, kx),
+               "%s.get(%s, None)" % (m, kx), m, "len(%s)" % m, "len(%s) > 0" % m, "bool(%s)" % m}
+    absent = {"%s.get(%s) is None" % (m, kx), "%s.get(%s, None) is None" % (m, kx), "0 == len(%s)" % m, "len(%s) == 0" % m}
+    branches = branch_filter(fa, lambda t_, p_: (p_ and t_ in absent) or (not p_ and t_ in present))
+    memo = {}
+
+    def subscripts_key(s):
+        if s not in memo:
+            nd = fa.cfg.node(s)
+            hit = False
+            if nd.ast is not None and nd.kind in ("stmt", "test"):
+                for x in A.walk_local(nd.ast):
+                    if isinstance(x, ast.Subscript) and isinstance(x.ctx, ast.Load) and self_attr(x.value, cm.map):
+                        try:
+                            hit = hit or fa.xnorm(x.slice, s) == kx
+                        except AnalysisError:
+                            pass
+            memo[s] = hit
+        return memo[s]
+
+    def catches_key_error(d):
+        nd = fa.cfg.node(d)
+        if nd.kind != "except":
+            return False
+        t = nd.ast.type
+        names = [A.norm(x) for x in (t.elts if isinstance(t, ast.Tuple) else [t])] if t is not None else [None]
+        return any(n_ in (None, "KeyError", "LookupError", "Exception", "BaseException") for n_ in names)
+
+    def edge_ok(s, d, l):
+        if l == "exc":
+            return not (catches_key_error(d) and subscripts_key(s))
+        return branches(s, d, l)
+
+    return edge_ok
+
+
+def _marks_of_key(fa: FA, cm, kx):
+    """CFG nodes of `fa` that refresh the recency of key `kx`."""
+    def same(c):
+        try:
+            return bool(c.args) and _xn(fa, c.args[0], c) == kx
+        except AnalysisError:
+            return False
+    out = []
+    if cm.mark_used is not None:
+        out += fa.nodes_all([c for c in fa.calls(cm.mark_used.name) if cm.is_self_call(c, cm.mark_used) and same(c)])
+    rem = [c for c in fa.calls("remove") if self_attr(A.call_recv(c), cm.queue) and same(c)]
+    if rem:
+        out += fa.nodes_all([c for c in fa.calls("append") if self_attr(A.call_recv(c), cm.queue) and same(c)])
+    return out
+
+
+def check_weak_fallback(ck, cm: CacheModel, R):
+    """Recency on read, weak-table side.  The weak-reference table also holds the values of RESIDENT entries (the entry
+    keeps its value alive), so an answer taken from that table is an answer about a possibly resident entry unless the
+    code has established that the key is not resident.  Clause: on every path on which a reader hands out a value looked
+    up in the weak table, or reports presence because the key is in the weak table, either the path has taken an edge
+    that says "this key is not in the resident map", or it refreshes the recency of that key.  Otherwise a read of a
+    resident entry leaves its queue position untouched and the entry is evicted as if it had not been read."""
+    if not cm.refs:
+        return
+    n_sites = 0
+    for name, m in cm.cls.methods.items():
+        if m in (cm.evict, cm.mark_used) or m in cm.inserts or name.startswith("__"):
+            continue
+        f2 = FA(ck, m)
+        for r in f2.returns():
+            if r.value is None or not f2.nodes(r):
+                continue
+            # (a) a value / presence answer computed from a keyed lookup in the weak table
+            bad = None
+            seen = False
+            for (v_, at_) in value_sources(f2, r):
+                for (lk, key) in _weak_lookups(cm, v_):
+                    n_sites += 1
+                    seen = True
+                    try:
+                        kx = f2.xnorm(key, at_)
+                    except AnalysisError:
+                        kx = A.norm(key)
+                    if not every_path_through(f2, [at_], _marks_of_key(f2, cm, kx), edge_ok=_not_resident_edges(f2, cm, kx)):
+                        bad = bad or lk
+            if seen:
+                ck.ob(R, f2.key(r, "weak-only-when-not-resident"), bad is None,
+                      "the weak-reference table answers only for keys known not to be resident (or the recency is refreshed)" if bad is None else
+                      "`%s` is served from the weak-reference table on a path that has neither established that the key is not resident nor "
+                      "refreshed its recency: a resident entry (its value is always in the weak table) is read without moving to the "
+                      "most-recently-used end, so it is evicted as if it had not been read" % A.short(bad, 50), f2.where(r))
+        # (b) a positive answer returned BECAUSE a branch found the key in the weak table
+        m_refs = "self." + cm.refs
+        for n in f2.cfg.nodes:
+            if n.kind != "test" or n.ast is None or isinstance(f2.pm.get(n.ast), ast.While):
+                continue
+            for label in ("T", "F"):
+                try:
+                    atoms = f2._atoms(n.ast, n.id, label == "T")
+                except AnalysisError:
+                    continue
+                keys = []
+                for (t_, p_) in atoms:
+                    if p_ and t_.endswith(" in " + m_refs):
+                        keys.append(t_[:-len(" in " + m_refs)])
+                    elif not p_ and t_.startswith(m_refs + ".get(") and t_.endswith(") is None"):
+                        keys.append(t_[len(m_refs + ".get("):-len(") is None")])
+                for kx in keys:
+                    if kx.endswith(", None"):
+                        kx = kx[:-len(", None")]
+                    marks = set(_marks_of_key(f2, cm, kx))
+                    edge_ok = _not_resident_edges(f2, cm, kx)
+                    if n.id in marks or n.id not in f2.cfg.reach([f2.cfg.entry], removed=marks, edge_ok=edge_ok):
+                        continue
+                    starts = [d for (d, l) in f2.cfg.succ[n.id] if l == label and d not in marks and edge_ok(n.id, d, l)]
+                    after = f2.cfg.reach(starts, removed=marks, edge_ok=edge_ok)
+                    for r in f2.returns():
+                        if r.value is None or not _answers_presence(f2, r) or any(_weak_lookups(cm, v_) for (v_, _a) in value_sources(f2, r)):
+                            continue
+                        rn = [i for i in f2.nodes(r) if i in after]
+                        if not rn:
+                            continue
+                        n_sites += 1
+                        # the answer may still refresh the recency after this point (on every way out)
+                        ok = all(f2.cfg.exit not in f2.cfg.reach([i], removed=marks, edge_ok=edge_ok, include_start=False) for i in rn)
+                        ck.ob(R, f2.key(r, "weak-presence-only-when-not-resident"), ok,
+                              "presence found in the weak-reference table is reported only for keys known not to be resident" if ok else
+                              "presence is reported because the key is in the weak-reference table, on a path that has neither established that "
+                              "the key is not resident nor refreshed its recency: a resident entry is reported without moving to the "
+                              "most-recently-used end", f2.where(r))
+    ck.ob(R, CACHE_CLASS + "::weak-only-when-not-resident::scan", True, "%d answers taken from the weak-reference table" % n_sites, "")
+
+
 def check_lru(ck, cm: CacheModel):
     R = "C06.R3"
     ck.rule(R, "LRU discipline: mark-used = remove then append (right end); eviction takes the left end; every "
@@ -842,6 +995,7 @@ def check(ck):
     ck.run(check_accounting, ck, cm)
     ck.run(check_budget, ck, cm)
     ck.run(check_lru, ck, cm)
+    ck.run(check_weak_fallback, ck, cm, "C06.R3")
     ck.run(check_queue_unbounded, ck, cm, "C06.R3")
     ck.run(check_estimates_bounded_below, ck, cm, "C06.R1")
     ck.run(check_replace_on_put, ck, cm, "C06.R4")
